@@ -266,6 +266,7 @@ def check(pid, tier):
                     cmd.append("-rapid.steps=%d" % t["steps"])
             rc, out, to, dt = run_proc(cmd, os.path.join(tree, u["pkg"]), env, timeout + 60)
             shutil.rmtree(os.path.join(rd, "db"), ignore_errors=True)
+            synthesized = None
             if u.get("kind") == "fuzz" and rc != 0 and not to:
                 # a worker died (or the target failed without writing a case): turn the engine's crasher file into a replay
                 faildir = os.path.join(rd, "fail")
@@ -280,10 +281,32 @@ def check(pid, tier):
                                 ff = {"property": spec_id(u), "check": u["test"], "failure": "native fuzzing: the process died or the target failed on this input: " + out[-600:],
                                       "case": {"data": base64.b64encode(data).decode(), "input": base64.b64encode(data).decode()}}
                                 json.dump(ff, open(os.path.join(faildir, "fail-%s.json" % u["test"]), "w"))
-            return dict(ui=ui, unit=u, shard=s, seed=seed, rc=rc, out=out, timed_out=to, rd=rd, dt=dt, req=t.get("checks", 0))
+                                synthesized = os.path.join(faildir, "fail-%s.json" % u["test"])
+            return dict(ui=ui, unit=u, shard=s, seed=seed, rc=rc, out=out, timed_out=to, rd=rd, dt=dt, req=t.get("checks", 0), synthesized=synthesized)
+
+        def confirm_fuzz_death(res):
+            """A fuzz worker died (or stopped answering) and the engine blamed an input: only an input that also fails
+            when replayed in a fresh process is a finding (under load the engine reports stalled workers as crashes)."""
+            u = res["unit"]
+            rc2, out2, to2 = replay_once(bins[bin_key(u)], tree, u["pkg"], res["synthesized"], work, "fuzzdeath-%s" % u["test"], active_known)
+            return rc2 != 0 and not to2
 
         def run_job_retry(job):
             res = run_job(job)
+            for attempt in range(2):
+                if not res.get("synthesized"):
+                    break
+                if confirm_fuzz_death(res):
+                    break
+                log("[fuzz] %s: the engine reported a dead worker, the blamed input passes in a fresh process (attempt %d)" % (res["unit"]["test"], attempt + 1))
+                os.remove(res["synthesized"])
+                if attempt == 0:
+                    shutil.rmtree(res["rd"], ignore_errors=True)
+                    res = run_job(job)
+                    res["retried"] = True
+                else:
+                    res["synthesized"] = None
+                    res["flaky_fuzz"] = True
             faildir = os.path.join(res["rd"], "fail")
             has_fail = os.path.isdir(faildir) and any(f.startswith("fail-") or f == "current.json" for f in os.listdir(faildir))
             if res["rc"] != 0 and not res["timed_out"] and not has_fail:
@@ -331,6 +354,9 @@ def check(pid, tier):
                 infra.append("%s shard %d timed out after %.0fs (inconclusive)\n%s" % (name, res["shard"], res["dt"], res["out"][-1500:]))
                 continue
             if res["rc"] == 0:
+                continue
+            if res.get("flaky_fuzz"):
+                infra.append("%s: fuzz worker died twice without a reproducible input (inconclusive)\n%s" % (name, res["out"][-1500:]))
                 continue
             if fails:
                 for f in fails:
